@@ -650,6 +650,16 @@ example : ((do
     let (_, h') ← h.write [1, 2]
     h'.flush
     h'.drop : M Unit) w0).1 = .ok () := by decide
+/-- … and, since `memPublish` publishes only while the destination is still an existing file
+(model change following the Rust fix), the flush / drop of such a handle leaves the map
+unchanged: the removed file is NOT resurrected (before the change the same run gave `true`) -/
+example : ((do
+    let h ← memA.createFile
+    memA.removeFile
+    let (_, h') ← h.write [1, 2]
+    h'.flush
+    h'.drop
+    memA.exists_ : M Bool) w0).1 = .ok false := by decide
 
 /-- a handle whose leaf does not exist (any more) is tolerated as well -/
 example : ((({ leaf := 7, key := ['/', 'x'], kind := .physCreate, buf := [], pos := 0 } : WHandle).write
